@@ -50,6 +50,10 @@ func c15Scenarios(tier string) []*hist.Scenario {
 	// 1.5k, unrestricted 3.3k, K2U2Y2 one edit per client 10k.
 	single(1, 2, 2)
 	pair(2, 1, 2, 1)
+	// "including after garbage collection on the peers": enough syncs before the
+	// undo for BOTH replicas to have purged the tombstones the undo refers to
+	// (edit, author syncs, peer syncs twice, author syncs, undo: 2.6k shapes per kind)
+	single(1, 1, 4)
 	if tier == "quick" {
 		return out
 	}
@@ -59,6 +63,8 @@ func c15Scenarios(tier string) []*hist.Scenario {
 	single(1, 3, 2)
 	pair(2, 2, 2, 1)
 	single(2, 2, 3)
+	single(1, 1, 5)
+	single(1, 2, 4)
 	return out
 }
 
